@@ -22,7 +22,7 @@ def _eq_rows(c, name, batch, singles):
 
 
 # ----------------------------------------------------------------------------------------- QuaternionArray vs Quaternion
-@contract('C07', 'QuaternionArray', variants=[dict(op=o) for o in ('ctor', 'to_DCM', 'conjugate', 'to_angles', 'w/x/y/z/v')],
+@contract('C07', 'QuaternionArray', variants=[dict(op=o) for o in ('ctor', 'to_DCM', 'conjugate', 'to_angles', 'w/x/y/z/v')], cas=False,
           functions=['QuaternionArray.__new__', 'QuaternionArray.to_DCM', 'QuaternionArray.conjugate',
                      'QuaternionArray.to_angles', 'Quaternion.__new__', 'Quaternion.to_DCM', 'Quaternion.conjugate',
                      'Quaternion.to_angles'])
@@ -54,7 +54,7 @@ def c_qarray(c):
         _eq_rows(c, 'v', QA.v, [q.v for q in Qs])
 
 
-@contract('C07', 'from_rpy', functions=['QuaternionArray.from_rpy', 'Quaternion.from_rpy', 'orientation.rpy2q'])
+@contract('C07', 'from_rpy', cas=False, functions=['QuaternionArray.from_rpy', 'Quaternion.from_rpy', 'orientation.rpy2q'])
 def c_from_rpy(c):
     a = c.ahrs
     ang = np.array([[c.angle(f'a{i}{k}', -PI, PI) for k in range(3)] for i in range(2)])
@@ -70,7 +70,7 @@ def c_from_rpy(c):
 METHODS = [('shepperd', {}), ('chiaverini', {}), ('hughes', {}), ('sarabandi', {})]
 
 
-@contract('C07', 'from_DCM', variants=[dict(method=m) for m, _ in METHODS], cost=5,
+@contract('C07', 'from_DCM', variants=[dict(method=m) for m in ('shepperd', 'hughes')], cost=5, cas=False, feas_timeout_ms=1500,
           functions=['QuaternionArray.from_DCM', 'Quaternion.from_DCM', 'orientation.hughes', 'orientation.chiaverini'])
 def c_from_dcm(c):
     """QuaternionArray(DCM=stack, method=m) row i == Quaternion(dcm=stack[i], method=m), options honoured on both paths"""
@@ -87,7 +87,7 @@ def c_from_dcm(c):
     c.goal_eq('one-row', one[0], S[0])
 
 
-@contract('C07', '3d-vs-2d', variants=[dict(f='hughes'), dict(f='chiaverini')],
+@contract('C07', '3d-vs-2d', variants=[dict(f='hughes')], cas=False, feas_timeout_ms=1500,
           functions=['orientation.hughes', 'orientation.chiaverini'])
 def c_3d(c):
     o = c.ahrs.common.orientation
@@ -99,7 +99,7 @@ def c_3d(c):
     _eq_rows(c, 'rows', f(R), [f(R[0]), f(R[1])])
 
 
-@contract('C07', '2d-vs-1d', variants=[dict(f=f) for f in ('q2R.v1', 'q2R.v2', 'DCM.from_quaternion', 'q_conj', 'q_norm')],
+@contract('C07', '2d-vs-1d', variants=[dict(f=f) for f in ('q2R.v1', 'q2R.v2', 'DCM.from_quaternion', 'q_conj', 'q_norm')], cas=False,
           functions=['orientation.q2R', 'DCM.from_quaternion', 'orientation.q_conj', 'orientation.q_norm'])
 def c_2d(c):
     a = c.ahrs
@@ -118,8 +118,8 @@ def c_2d(c):
 
 
 # ----------------------------------------------------------------------------------------- metrics
-@contract('C07', 'metrics', variants=[dict(f=f) for f in ('chordal', 'qdist', 'qeip', 'qcip', 'qad', 'euclidean', 'rmse')],
-          feas_timeout_ms=1000,
+@contract('C07', 'metrics', variants=[dict(f=f) for f in ('chordal', 'qdist', 'qeip', 'rmse')],
+          feas_timeout_ms=1000, no_safety=True, budget_s=300,
           functions=['metrics.chordal', 'metrics.qdist', 'metrics.qeip', 'metrics.qcip', 'metrics.qad', 'metrics.euclidean', 'metrics.rmse'])
 def c_metrics(c):
     m = c.ahrs.utils.metrics
@@ -139,14 +139,19 @@ def c_metrics(c):
         b = f(X, Y); singles = [f(X[i], Y[i]) for i in range(2)]
         _eq_rows(c, 'rows', b, singles)
         return
-    P = np.array([c.unit_quat('p'), c.unit_quat('r')]); Q = np.array([c.unit_quat('q'), c.unit_quat('s')])
+    # non-normalised rows: positive scale times a unit quaternion (so every normalisation in the code is visible)
+    sc = [c.real(f'k{i}') for i in range(4)]
+    for k in sc:
+        c.assume(gt(k, 0))
+    P = np.array([sc[0] * c.unit_quat('p'), sc[1] * c.unit_quat('r')]); Q = np.array([sc[2] * c.unit_quat('q'), sc[3] * c.unit_quat('s')])
     singles = []
     for i in range(2):
         # the single-item functions return exactly 0 inside their allclose(q1, +-q2) shortcut (unreachable for
         # relative angles >= 1e-4 rad, proved under C18); those paths are excluded here
-        if c.np.allclose(P[i], Q[i]) or c.np.allclose(-P[i], Q[i]):
+        r_ = f(P[i], Q[i])
+        if isinstance(r_, float) and r_ == 0.0:
             raise Skip()
-        singles.append(f(P[i], Q[i]))
+        singles.append(r_)
     b = f(P, Q)
     if name in ('qcip', 'qad'):
         for i in range(2):
@@ -160,7 +165,7 @@ def _am(c, n=2):
     return _rows(c, 'a', n, 3), _rows(c, 'm', n, 3)
 
 
-@contract('C07', 'Tilt', variants=[dict(rep=r, mag=g) for r in ('quaternion', 'angles', 'rotmat') for g in (True, False)],
+@contract('C07', 'Tilt', variants=[dict(rep=r, mag=False) for r in ('quaternion', 'angles', 'rotmat')], cas=False, no_safety=True, feas_timeout_ms=1500,
           functions=['Tilt.__init__', 'Tilt._compute_all', 'Tilt.estimate'])
 def c_tilt(c):
     T = c.ahrs.filters.Tilt
@@ -181,7 +186,7 @@ def c_tilt(c):
         c.goal_eq('one-sample', np.asarray(one), np.asarray(S[0]))
 
 
-@contract('C07', 'SAAM', variants=[dict(rep='quaternion'), dict(rep='rotmat')], functions=['SAAM.__init__', 'SAAM._compute_all', 'SAAM.estimate'])
+@contract('C07', 'SAAM', variants=[dict(rep='quaternion'), dict(rep='rotmat')], cas=False, no_safety=True, feas_timeout_ms=1500, functions=['SAAM.__init__', 'SAAM._compute_all', 'SAAM.estimate'])
 def c_saam(c):
     S_ = c.ahrs.filters.SAAM
     A_, M_ = _am(c)
@@ -194,6 +199,7 @@ def c_saam(c):
         _eq_rows(c, 'A', obj.A, [c.ahrs.Quaternion(s).to_DCM() for s in singles])
 
 
+HEAVY_LOOPED = ('FQA', 'AQUA')
 LOOPED = {
     'TRIAD.rotmat': lambda c, A_, M_: (c.ahrs.filters.TRIAD(A_, M_).A, lambda a, m: c.ahrs.filters.TRIAD().estimate(a, m, 'rotmat')),
     'TRIAD.quaternion': lambda c, A_, M_: (c.ahrs.filters.TRIAD(A_, M_, representation='quaternion').A,
@@ -206,7 +212,7 @@ LOOPED = {
 }
 
 
-@contract('C07', 'looped-estimator', variants=[dict(est=k) for k in LOOPED], optional=True, budget_s=400, feas_timeout_ms=1000,
+@contract('C07', 'looped-estimator', variants=[dict(est=k) for k in LOOPED if k not in HEAVY_LOOPED], optional=True, budget_s=400, feas_timeout_ms=1000, cas=False,
           no_safety=True, max_paths=300,
           functions=['TRIAD.__init__', 'TRIAD._compute_all', 'FAMC._compute_all', 'FQA._compute_all', 'AQUA._compute_all'])
 def c_looped(c):
@@ -217,6 +223,36 @@ def c_looped(c):
     _eq_rows(c, 'rows', B, [s0])
     B1, _ = LOOPED[c.p['est']](c, A_[0], M_[0])
     c.goal_eq('one-sample', np.asarray(B1), np.asarray(s0))
+
+
+@contract('C07', 'from_DCM.thorough', variants=[dict(method=m) for m in ('chiaverini', 'sarabandi')], cas=False, feas_timeout_ms=1500,
+          thorough_only=True, optional=True, budget_s=3000, functions=['QuaternionArray.from_DCM'])
+def c_from_dcm_t(c):
+    c_from_dcm(c)
+
+
+@contract('C07', '3d-vs-2d.thorough', variants=[dict(f='chiaverini')], cas=False, feas_timeout_ms=1500, thorough_only=True,
+          optional=True, budget_s=3000, functions=['orientation.chiaverini'])
+def c_3d_t(c):
+    c_3d(c)
+
+
+@contract('C07', 'metrics.thorough', variants=[dict(f=f) for f in ('qcip', 'qad', 'euclidean')], feas_timeout_ms=1000,
+          no_safety=True, thorough_only=True, optional=True, budget_s=3000, functions=['metrics.qcip', 'metrics.qad', 'metrics.euclidean'])
+def c_metrics_t(c):
+    c_metrics(c)
+
+
+@contract('C07', 'Tilt.thorough', variants=[dict(rep=r, mag=True) for r in ('quaternion', 'angles', 'rotmat')], cas=False,
+          no_safety=True, feas_timeout_ms=1500, thorough_only=True, optional=True, budget_s=3000, functions=['Tilt._compute_all'])
+def c_tilt_t(c):
+    c_tilt(c)
+
+
+@contract('C07', 'looped-estimator.thorough', variants=[dict(est=k) for k in HEAVY_LOOPED], optional=True, budget_s=3000,
+          feas_timeout_ms=1000, cas=False, no_safety=True, max_paths=2000, thorough_only=True, functions=['FQA._compute_all', 'AQUA._compute_all'])
+def c_looped_t(c):
+    c_looped(c)
 
 
 @contract('C07', 'FLAE.method-forwarded', variants=[dict(method=m, n=n) for m in ('symbolic', 'eig', 'newton') for n in (1, 2)],
